@@ -194,6 +194,7 @@ def run_group(gs):
     info["ntrials"] = sum(1 for e in rec.events if e["ev"] == "TrialEnd")
     info["naccept"] = sum(1 for e in rec.events if e["ev"] == "TrialEnd" and e["kind"] == "accept")
     info["nfail"] = sum(1 for e in rec.events if e["ev"] == "TrialEnd" and e["kind"] == "fail")
+    info["nfault"] = sum(1 for e in rec.events if (e["ev"] == "Eval" and not e["ok"]) or (e["ev"] == "Lin" and e["raised"] != "none"))
     evs = project.project(rec)
     return {"events": evs, "info": info, "spec": gs}
 
@@ -311,7 +312,7 @@ def validate_groups(results, keep_samples=2, chunk_events=60000):
                     br.statuses[st] = br.statuses.get(st, 0) + 1
                 for e in r["events"]:
                     br.event_counts[e["ev"]] = br.event_counts.get(e["ev"], 0) + 1
-                br.infos.append(r["info"])
+                br.infos.append(dict(r["info"], _key=json.dumps(_jsonable(r["spec"]), sort_keys=True)[:2000]))
                 if len(br.samples) < keep_samples:
                     br.samples.append({"spec": _jsonable(r["spec"]), "info": r["info"],
                                        "events_head": [_slim(e) for e in r["events"][:12]]})
